@@ -4,7 +4,7 @@ from __future__ import annotations
 from ..evalr import Obj
 from ..numeval import CannotEvaluate
 from ..spec import GAMMAS, SCORES, POS, NEG, returns, raises, unmodelled_text, pc_text
-from ..terms import App, Const, Num, Sym, Tup, same, show, sub, add, atoms_of, is_const, const_of
+from ..terms import App, Const, Num, Sym, Tup, same, show, sub, add, atoms_of, is_const, const_of, to_poly
 from .thr import rate_term
 from .c02s import direction
 
@@ -213,7 +213,26 @@ def run(ctx, chk, tier):
             for _f, n_, _ok in ns:
                 tot = add(tot, n_)
             kinds = sorted(f for f, _n, _ok in ns)
-            if len(ns) == len(parts) == 2 and same(tot, NB) and kinds == ["THRESHOLD_AT_FNR", "THRESHOLD_AT_FPR"] and all(ok for _f, _n, ok in ns):
+            tot_ok = same(tot, NB)
+            if not tot_ok:
+                # integer identities such as n//2 + (n + 1)//2 = n: a sum of floor-divisions (by positive constants) of linear terms in n is
+                # linear on every residue class modulo the lcm L of the divisors, so agreement on [0, 2L + 1] is agreement for all n >= 0
+                import math
+                from ..numeval import evaluate, CannotEvaluate
+                from fractions import Fraction
+                fds = [a_ for a_ in [tot] + list(atoms_of(tot)) if isinstance(a_, App) and a_.fn == "floordiv"]
+                lin = all(len(a_.args) == 2 and isinstance(a_.args[1], Const) and isinstance(a_.args[1].value, int) and a_.args[1].value > 0
+                          and to_poly(a_.args[0]) is not None and all(sum(e_ for _a, e_ in m_) <= 1 for m_ in to_poly(a_.args[0]).t) and set(atoms_of(a_.args[0])) <= {NB} for a_ in fds)
+                others = [a_ for a_ in atoms_of(tot) if a_ != NB and not (isinstance(a_, App) and a_.fn == "floordiv") and not any(a_ in atoms_of(f_) for f_ in fds)]
+                if fds and lin and not others:
+                    L = 1
+                    for a_ in fds:
+                        L = L * a_.args[1].value // math.gcd(L, a_.args[1].value)
+                    try:
+                        tot_ok = all(evaluate(tot, {NB: Fraction(n_)}) == n_ for n_ in range(0, 2 * L + 2))
+                    except CannotEvaluate:
+                        tot_ok = False
+            if len(ns) == len(parts) == 2 and tot_ok and kinds == ["THRESHOLD_AT_FNR", "THRESHOLD_AT_FPR"] and all(ok for _f, _n, ok in ns):
                 chk.hold("R15.4", "nb_points", "nb_points//2 thresholds along FNR + the rest along FPR = nb_points points (linspace 0..1 inclusive)")
             else:
                 chk.violation("R15.4", FST, "nb_points", [show(p_, 100) for p_ in parts], "linspace(0,1,n1) along FNR and linspace(0,1,n2) along FPR with n1 + n2 = nb_points", ctx.where(FST))
